@@ -15,8 +15,8 @@ import (
 
 func init() {
 	register("C15",
-		"week-index arithmetic, the contents of GetWeeks, and whether the month-separated week walk visits exactly one (month, week) position per step (after the repair of the shadowed variable the walk still mis-steps for some (first weekday, n); that residue is arithmetic and invisible to these rules).",
-		r15_1, r15_2, r15_3, r15_5, r15_6, r15_7, r15_8, r15_9, r07_1)
+		"the week arithmetic outside the enumerated cases (R15.6 enumerates day x weekday x first weekday for May 2022 and October 1582; R15.10 follows the month-separated walk for a four-month window across a year end, October 1582 not in it); the contents of GetWeeks beyond R15.8; that civil-day stepping and weekdays themselves are right (C04).",
+		r15_1, r15_2, r15_3, r15_5, r15_6, r15_7, r15_8, r15_9, r07_1, r15_10)
 }
 
 // steppingMethods: methods named Next* whose first non-receiver parameter is an int.
